@@ -1604,7 +1604,10 @@ func runAff9(m *Model, r *RuleResult) {
 		return
 	}
 	info := p.TypesInfo
-	fn := m.TypesFunc("internal/geom", "", "FitSpline")
+	var fn *types.Func
+	if af := m.anchorFitter(); af != nil {
+		fn, _ = af.Object().(*types.Func)
+	}
 	if fn == nil || m.Decl[fn] == nil {
 		r.undecided("fitspline", "-", "geom.FitSpline", "not found")
 		return
